@@ -33,6 +33,7 @@ let int_of_nat (x : nat) : int =
 
 (* arbitrary-size naturals as decimal strings (u64 virtual positions exceed OCaml's int) *)
 let n_of_dec (s : string) : n =
+  if String.length s <= 18 then n_of_int (int_of_string s) else
   (* schoolbook: repeatedly divide the decimal string by 2 *)
   let digits = Array.init (String.length s) (fun i -> Char.code s.[i] - 48) in
   let len = Array.length digits in
@@ -54,9 +55,12 @@ let n_of_dec (s : string) : n =
       let p = List.fold_left (fun acc b -> if b = 1 then XI acc else XO acc) XH rest in
       Npos p
 
+let rec pos_bits (p : positive) : int = match p with XH -> 1 | XO q | XI q -> 1 + pos_bits q
+
 let dec_of_n (x : n) : string =
   match x with
   | N0 -> "0"
+  | Npos p when pos_bits p <= 61 -> string_of_int (int_of_pos p)
   | Npos p ->
       (* collect bits lsb first, then double-and-add on a decimal digit array *)
       let rec bits p acc = match p with XH -> 1 :: acc | XO q -> bits q (0 :: acc) | XI q -> bits q (1 :: acc) in
